@@ -695,6 +695,13 @@ def r1_5(ctx, rep):
                         # single-step discipline nor a recognisable breach of it - the cursor model cannot follow it
                         rep.defer(f"R1.5: {cls.name}.{mname} advances the cursor by a computed stride `{short(tgt, 70)}`, which the cursor model does not follow")
                         continue
+                    if mname not in who and isinstance(tgt, ast.Assign) and attr == "current" and isinstance(tgt.value, ast.Name) \
+                            and any(isinstance(s_, ast.Assign) and unparse(s_.targets[0]) == tgt.value.id and unparse(s_.value) in ("self.current", "self.start")
+                                    for s_ in walk_local(m.node)):
+                        # the cursor is kept in a local index (read from self.current, advanced locally, written back): a scanner
+                        # written without the primitives - the cursor model, which follows the primitives, cannot decide it
+                        rep.defer(f"R1.5: {cls.name}.{mname} keeps the cursor in the local `{tgt.value.id}` and writes it back (`{short(tgt, 50)}`): not followed by the cursor model")
+                        continue
                     obl(rep, m, tgt, "R1.5", mname in who,
                         f"write to {cls.name}.{attr} in {mname}", f"writers allowed: {sorted(who)}",
                         f"{cls.name}.{attr} is written outside {sorted(who)}", nontrivial=False)
@@ -814,8 +821,29 @@ def r1_7(ctx, rep):
         "the lexeme is exactly the characters consumed since the reset")
 
 
+def local_cursor_methods(prog):
+    """Scanner methods that keep the cursor in a local index (`pos = self.current` ... `self.current = pos`) instead of moving
+    it with the primitives: the cursor model (R1.5, R1.8, R12.5) follows the primitives and cannot decide such a method"""
+    out = []
+    cls = prog.cls("scanner.Scanner")
+    for mname, m in cls.methods.items():
+        if mname in ("advance", "match", "__init__", "scan"):
+            continue
+        for st in walk_local(m.node):
+            if isinstance(st, ast.Assign) and any(is_self_attr(t, "current") for t in st.targets) and isinstance(st.value, ast.Name) \
+                    and any(isinstance(s_, ast.Assign) and unparse(s_.targets[0]) == st.value.id and unparse(s_.value) in ("self.current", "self.start")
+                            for s_ in walk_local(m.node)):
+                out.append(mname)
+                break
+    return out
+
+
 def r1_8(ctx, rep):
     prog = ctx.prog
+    lc = local_cursor_methods(prog)
+    if lc:
+        rep.defer(f"R1.8: Scanner.{', Scanner.'.join(sorted(lc))} keep the cursor in a local index: not followed by the cursor model")
+        return
     for name, kind in (("number", "NUMBER"), ("floatnum", "NUMBER"), ("identifier", None), ("char", "STRING"), ("backquote", "BQNAME")):
         f = prog.fn(f"scanner.Scanner.{name}")
         c = cfg_of(f)
